@@ -31,6 +31,7 @@ CFG = gdoc.Cfg(words=st.sampled_from(HOSTILE), inlines=['t', 'em', 'code'], bloc
 head = st.fixed_dictionaries({
     'title': st.lists(st.sampled_from(TITLES), min_size=1, max_size=3).map(' '.join),
     'style': st.sampled_from(['atx', 'atxc', 'setext']), 'level': st.integers(1, 6), 'delta': st.integers(-2, 1),
+    'two_lines': st.sampled_from([False, False, True]),
     'blanks': st.sampled_from(['', '', '', ' ', '  ', '\t']),       # blanks after the heading text / closing hashes
     'body': st.one_of(st.just(None), gdoc.blocks(CFG)), 'lead': st.sampled_from(['\n', '\n\n', '\n']), 'trail': st.sampled_from(['\n', '\n\n', '\n\n\n']),
 })
@@ -44,7 +45,7 @@ def strategy(tier):
         'engine_leg': st.booleans(), 'ctl': st.sampled_from([0, 0, 0, 1, 2, 3]),
         'preamble': st.one_of(st.just(None), gdoc.blocks(CFG)),
         'heads': st.lists(head, min_size=0, max_size=10),
-        'nested': st.booleans(), 'crlf': st.booleans(), 'final_nl': st.booleans(), 'bare_end': st.booleans(),
+        'nested': st.booleans(), 'crlf': st.booleans(), 'cr': st.sampled_from([False, False, False, True]), 'final_nl': st.booleans(), 'bare_end': st.booleans(),
     })
 
 
@@ -71,7 +72,7 @@ def body_text(blocks):
 
 
 def build(case):
-    nl = '\r\n' if case['crlf'] else '\n'
+    nl = '\r' if case.get('cr') else '\r\n' if case['crlf'] else '\n'
     src = ''
     meta = [(k, v) for k, v in case['meta']]
     if meta:
@@ -107,6 +108,8 @@ def build(case):
         else:
             if not meta and not heads and not pre and KEYLINE.match(title):
                 title = 'T ' + title
+            if h.get('two_lines') and ' ' in title and not re.search(r'[<>&~{]', title):
+                title = title.replace(' ', '\n', 1)          # a Setext title may span several lines
             line = title + '\n' + ('=' if level == 1 else '-') * max(3, len(title)) + '\n'
         hstart = len(src)
         src += line
@@ -136,6 +139,7 @@ def build(case):
 
 
 def norm_title(t):
+    t = t.replace('\r\n', '\n').replace('\r', '\n')          # (line endings inside a multi-line title are compared as such, whatever their spelling)
     return re.sub(r'[ \t]+$', '', re.sub(r'^[ \t]+', '', t))
 
 
